@@ -36,7 +36,7 @@ from vlib import cnat, cbool, clist
 import c19_impl as I
 
 HEADER = ("From Coq Require Import List ZArith Bool.\nImport ListNotations.\n"
-          "From QV Require Import Model.C19 Model.C19_merge.\n")
+          "From QV Require Import Model.C19 Model.C19_merge Model.C19_ferm.\n")
 
 TYPES = {"R": "TR", "I": "TI", "RI": "TRI", "+": "TPlus", "-": "TMinus"}
 RTYPES = {v: k for k, v in TYPES.items()}
@@ -1249,6 +1249,79 @@ def corr_perm(ctx, rng, ncases, big):
                           {"kind": "perm", "spec": sp, "pi": pi}, found_input=True)
 
 
+def corr_ferm_swap(ctx, rng, ncases, big):
+    """ties Model/C19_ferm.v: the exponent list with positions k, k+1 exchanged and the
+    partner offsets re-computed IN COQ is handed to the real HEOMSolver; the signed label
+    map (n -> n o tau, sign s(n)) evaluated in Coq must conjugate the real generator of the
+    original list into the real generator of the re-ordered list, exactly"""
+    specs, ks, exprs = [], [], []
+    for _ in range(ncases):
+        sp = gen_spec(rng, kind=rng.choice(["ferm", "ferm", "mixed"]), big=big)
+        if sp["depth"] == 0:
+            sp["depth"] = 2
+        ne = len(sp["exps"])
+        k = rng.randrange(ne - 1)
+        specs.append(sp)
+        ks.append(k)
+        ex = clist(sp["exps"], cexp)
+        exprs.append(
+            "(map (fun e => (e_type G e, e_dim G e, e_q G e, e_ck G e, e_vk G e, e_ck2 G e, "
+            "e_off G e)) (swap_exps (dflt G g0) %s %s), match sne (heom_dims G %s %s) %s with "
+            "Some ls => map (fun n => (n, permute 0 (swap_pi %s %s) n, swap_s_even %s %s n)) ls "
+            "| None => [] end)" % (cnat(k), ex, ex, cnat(sp["depth"]), cnat(sp["depth"]),
+                                   cnat(k), cnat(ne), ex, cnat(k)))
+    vals = vlib.coq_eval_values("cases_C19_ferm", HEADER, exprs, chunk=20)
+    dist = ctx.cov.setdefault("input_distribution", {}).setdefault("fermionic_swap", {})
+    for sp, k, v in zip(specs, ks, vals):
+        mexps, triples = vlib.parse_coq_value(v)
+        N = sp["n"] ** 2
+        ctx.count_case(("ferm-swap", json.dumps(sp), k), nontrivial=True)
+        ctx.cov["traces_validated_against_impl"] += 1
+        key = "%s-%s" % (sp["kind"], "odd" if sp["odd"] else "even")
+        dist[key] = dist.get(key, 0) + 1
+        sp2 = copy.deepcopy(sp)
+        sp2["exps"] = []
+        for t, dim, q, ck, vk, ck2, off in mexps:
+            sp2["exps"].append({"t": RTYPES[t], "dim": unsome(dim), "q": q, "ck": list(ck),
+                                "vk": list(vk),
+                                "ck2": None if unsome(ck2) is None else list(unsome(ck2)),
+                                "off": unsome(off)})
+        diff = None
+        try:
+            s1, G1 = I.real_generator(sp)
+            s2, G2 = I.real_generator(sp2)
+        except Exception as e:      # noqa
+            ctx.violation("corr:ferm-swap", {"what": "exception", "error": I.canon_err(e)},
+                          "fermionic swap correspondence: implementation raised %s" % e,
+                          {"kind": "ferm-swap", "spec": sp, "k": k})
+            continue
+        pos1 = {tuple(l): i for i, l in enumerate(s1.ados.labels)}
+        pos2 = {tuple(l): i for i, l in enumerate(s2.ados.labels)}
+        M = np.zeros((N * len(pos2), N * len(pos1)))
+        ok = len(triples) == len(pos1) == len(pos2)
+        for n, m, even in triples:
+            if not ok or tuple(n) not in pos1 or tuple(m) not in pos2:
+                ok = False
+                break
+            M[pos2[tuple(m)] * N:(pos2[tuple(m)] + 1) * N,
+              pos1[tuple(n)] * N:(pos1[tuple(n)] + 1) * N] = (1 if even else -1) * np.eye(N)
+        if not ok:
+            diff = "re-ordered labels leave the re-ordered hierarchy"
+        elif not np.array_equal(M @ G1, G2 @ M):
+            diff = "(P S) G != G' (P S) for the real generators (exponents, P and S from the Coq model)"
+        elif not np.array_equal(M[:N, :N], np.eye(N)):
+            diff = "P S does not fix rho_0"
+        if diff:
+            bad = oracle_generator(sp) + oracle_generator(sp2)
+            ctx.violation("corr:ferm-swap", {"bath": sp["kind"], "odd": sp["odd"],
+                                             "impl-violates": bool(bad)},
+                          "fermionic swap model and implementation disagree: " + diff
+                          + ("; implementation violates: " + bad[0][1] if bad else ""),
+                          {"kind": "ferm-swap", "spec": sp, "spec_swapped": sp2, "k": k},
+                          found_input=True)
+    ctx.sample({"ferm_swap_spec": specs[-1], "k": ks[-1], "model_value": vals[-1][:300]})
+
+
 def corr_csr(ctx, rng, ncases):
     cases = [gen_blocks_case(rng) for _ in range(ncases)]
     vals = vlib.coq_eval_values("cases_C19_csr", HEADER, [csr_expr(c) for c in cases],
@@ -1310,8 +1383,10 @@ def run(ctx):
         r2 = random.Random(ctx.seed + 101)
         run_oracles(ctx, r2, 40, big=False, count=False)
 
-    vlib.standard_proof_step(ctx, ["Props/C19.vo", "Props/C19_trace.vo", "Props/C19_merge.vo"],
-                             ["Props/C19.v", "Props/C19_trace.v", "Props/C19_merge.v"], search)
+    vlib.standard_proof_step(ctx, ["Props/C19.vo", "Props/C19_trace.vo", "Props/C19_merge.vo",
+                                   "Props/C19_ferm.vo"],
+                             ["Props/C19.v", "Props/C19_trace.v", "Props/C19_merge.v",
+                              "Props/C19_ferm.v"], search)
 
     q = ctx.quick
     try:
@@ -1321,6 +1396,7 @@ def run(ctx):
         corr_csr(ctx, rng, 150 if q else 2500)
         corr_merge(ctx, rng, 10 if q else 80, big=not q)
         corr_perm(ctx, rng, 8 if q else 60, big=not q)
+        corr_ferm_swap(ctx, rng, 10 if q else 100, big=not q)
     except RuntimeError as e:
         ctx.violation("corr:C19:model-eval", "coqc", "model evaluation failed",
                       {"log": str(e)[-3000:]}, found_input=False)
@@ -1344,6 +1420,8 @@ def replay(ctx, payload):
     bad = []
     if kind == "final_ado_state":
         bad = [(k, w) for k, w, _ in oracle_final_ado_state(tuple(d["options"]))]
+    elif kind == "ferm-swap":
+        bad = oracle_generator(d["spec"]) + oracle_generator(d["spec_swapped"])
     elif kind == "perm":
         bad = oracle_generator(d["spec"])
         for _ in range(8):
